@@ -38,6 +38,38 @@ def plain(r):
     return r
 
 
+def sub_element(el, kind, key):
+    """The element that (alone) validates and builds a member, when that is unambiguous from the real element tree."""
+    from statham.schema.elements import Array, Element as El
+
+    if el is None:
+        return None
+    try:
+        if kind == "prop" and isinstance(el, ObjectMeta):
+            import re
+
+            for n, p in (el.properties or {}).items():
+                if (p.source or n) == key:
+                    # a declared property is built by its own element even when patternProperties also match its name
+                    # (the library composes AllOf(declared, *patterns) and allOf returns its first member's result)
+                    return p.element
+            pats = getattr(el, "patternProperties", None)
+            if isinstance(pats, dict) and any(re.search(p, key) for p in pats):
+                return None
+            add = getattr(el, "additionalProperties", True)
+            return add if isinstance(add, El) else None
+        if kind == "item" and type(el) is Array:
+            if isinstance(el.items, El):
+                return el.items
+            if isinstance(el.items, list):
+                if key < len(el.items):
+                    return el.items[key]
+                return el.additionalItems if isinstance(el.additionalItems, El) else None
+    except Exception:
+        return None
+    return None
+
+
 class Ctx:
     def __init__(self, schema):
         text = repr(schema)
@@ -59,7 +91,19 @@ def _is_default(ctx, val):
     return False
 
 
-def embed(ctx, v, r, path, problems):
+def embed(ctx, v, r, path, problems, el=None):
+    from statham.schema.elements import Number
+
+    if type(el) is Number and type(v) is int and type(r) is not float:
+        try:
+            float(v)
+            problems.append("%s: integer %r accepted by a number schema came back as %r, not the equal float" % (path, v, r))
+            return
+        except OverflowError:
+            pass
+    if isinstance(el, ObjectMeta) and isinstance(v, dict) and not isinstance(r, el):
+        problems.append("%s: object accepted by model class %s came back as %s %r" % (path, el.__name__, type(r).__name__, r))
+        return
     if isinstance(r, NotPassed):
         problems.append("%s: input %r came back as the not-passed marker" % (path, v))
         return
@@ -84,11 +128,11 @@ def embed(ctx, v, r, path, problems):
             problems.append("%s: array %r came back as %r" % (path, v, r))
             return
         for i, (a, b) in enumerate(zip(v, r)):
-            embed(ctx, a, b, "%s[%d]" % (path, i), problems)
+            embed(ctx, a, b, "%s[%d]" % (path, i), problems, sub_element(el, "item", i))
         return
     if isinstance(v, dict):
         if isinstance(type(r), ObjectMeta):
-            _embed_model(ctx, v, r, path, problems)
+            _embed_model(ctx, v, r, path, problems, el)
         elif isinstance(r, dict):
             _embed_untyped(ctx, v, r, path, problems)
         else:
@@ -109,7 +153,9 @@ def _note_collision(ctx, keys):
                 return
 
 
-def _embed_model(ctx, v, r, path, problems):
+def _embed_model(ctx, v, r, path, problems, el=None):
+    if not isinstance(el, ObjectMeta):
+        el = type(r)
     props = type(r).properties or {}
     by_source = {(p.source or n): n for n, p in props.items()}
     _note_collision(ctx, v.keys())
@@ -127,7 +173,7 @@ def _embed_model(ctx, v, r, path, problems):
                 problems.append("%s: declared property %r not readable as attribute %r" % (path, k, name))
                 continue
             used.add(name)
-            embed(ctx, sub, got, "%s.%s" % (path, name), problems)
+            embed(ctx, sub, got, "%s.%s" % (path, name), problems, sub_element(el, "prop", k))
             if name not in d:
                 problems.append("%s: declared property %r missing from item view" % (path, k))
         else:
@@ -137,11 +183,14 @@ def _embed_model(ctx, v, r, path, problems):
                 problems.append("%s: additional member %r not readable by item access" % (path, k))
                 continue
             used.add(k)
-            embed(ctx, sub, got, "%s[%r]" % (path, k), problems)
+            embed(ctx, sub, got, "%s[%r]" % (path, k), problems, sub_element(el, "prop", k))
     for k, val in d.items():
         if k in used:
             continue
         if k in props:
+            pel = props[k].element
+            if isinstance(pel, ObjectMeta) and isinstance(type(val), ObjectMeta) and not isinstance(val, pel):
+                problems.append("%s: omitted property %r holds an instance of %s, not of its own model %s" % (path, k, type(val).__name__, pel.__name__))
             if not _is_default(ctx, val):
                 problems.append("%s: declared property %r not in input holds %r (neither default nor not-passed)" % (path, k, val))
         else:
@@ -175,9 +224,10 @@ def _embed_untyped(ctx, v, r, path, problems):
             problems.append("%s: member %r = %r invented (not in input, not a default/not-passed placeholder)" % (path, k, val))
 
 
-def check(schema, value, result):
-    """-> (problems, collision_flag)"""
+def check(schema, value, result, element=None):
+    """-> (problems, collision_flag).  `element` (the real element tree) sharpens the oracle where the builder of a
+    member is unambiguous: Number => float, model class => instance of that class."""
     ctx = Ctx(schema)
     problems = []
-    embed(ctx, value, result, "$", problems)
+    embed(ctx, value, result, "$", problems, element)
     return problems, ctx.collision
